@@ -789,7 +789,8 @@ pub fn big_session(r: &mut Rng, utf8: bool) -> Vec<u8> {
             if r.chance(1, 3) {
                 // abandoned (CAN / SUB / $x), other traffic, then another long list
                 out.extend_from_slice(*r.pick(&[&b"\x18"[..], b"\x1a", b"$p"]));
-                out.extend_from_slice(b"ab\r\n\x1b[2Cc");
+                // traffic that completes no CSI in between
+                out.extend_from_slice(*r.pick(&[&b"ab\r\n\x1b7c"[..], b"", b"x\x1b]2;t\x07", b"\x1b[3\x18y"]));
                 out.extend_from_slice(b"\x1b[");
                 let n2 = *r.pick(&[33u64, 34, 40, 64]);
                 for i in 0..n2 {
